@@ -9,6 +9,7 @@ import (
 	"fmt"
 	"os"
 	"os/exec"
+	"os/signal"
 	"path/filepath"
 	"regexp"
 	"runtime"
@@ -233,8 +234,9 @@ func runBatch(rc runCfg, id string, from, to int) (out []batchResult) {
 			out = append(out, br)
 			return
 		}
+		trackChild(cmd.Process.Pid, true)
 		done := make(chan error, 1)
-		go func() { done <- cmd.Wait() }()
+		go func() { done <- cmd.Wait(); trackChild(cmd.Process.Pid, false) }()
 		var werr error
 		select {
 		case werr = <-done:
@@ -444,6 +446,38 @@ func replay(vdir, file string) int {
 	return check(vdir, r.Prop, r.Tier, r.Seed, r.Case)
 }
 
+// children run in their own process groups (so that a SIGQUIT reaches the
+// whole group); when the runner itself is terminated they must go too.
+var (
+	childMu   sync.Mutex
+	childPids = map[int]bool{}
+)
+
+func trackChild(pid int, on bool) {
+	childMu.Lock()
+	if on {
+		childPids[pid] = true
+	} else {
+		delete(childPids, pid)
+	}
+	childMu.Unlock()
+}
+
+func killChildrenOnSignal(scratch string) {
+	ch := make(chan os.Signal, 1)
+	signal.Notify(ch, syscall.SIGTERM, syscall.SIGINT, syscall.SIGHUP)
+	go func() {
+		<-ch
+		childMu.Lock()
+		for pid := range childPids {
+			syscall.Kill(-pid, syscall.SIGKILL)
+		}
+		childMu.Unlock()
+		os.RemoveAll(scratch)
+		os.Exit(2)
+	}()
+}
+
 func check(vdir, prop, tier string, seed int64, only int) int {
 	start := time.Now()
 	meta, ok := props[prop]
@@ -453,6 +487,7 @@ func check(vdir, prop, tier string, seed int64, only int) int {
 	}
 	scratch := scratchBase()
 	defer os.RemoveAll(scratch)
+	killChildrenOnSignal(scratch)
 	race := meta.Race == "always" || (meta.Race == "thorough" && tier == "thorough")
 	b, err := buildHarness(vdir, scratch, race)
 	if err != nil {
